@@ -341,6 +341,27 @@ def rule_fallback(chk):
                    detail_bad='a path returns the integrator result without the None test', detail_ok='every path tests for None')
 
 
+def rule_consulted_every_step(chk):
+    """the adaptive criteria are consulted for every step the solver proposes"""
+    t = M.py(SOL)
+    gt = M.find_method(t, 'Solver', '_get_timestep')
+    g = C.build_cfg(gt)
+    comp = [n.id for n in g.nodes if n.ast is not None and isinstance(n.ast, (ast.Assign, ast.Expr)) and
+            any(M.call_name(c) == 'self._compute_timestep' for c in M.calls(n.ast))]
+    rets = [n for n in g.nodes if isinstance(n.ast, ast.Return)]
+    cont = [n for n in rets if not (M.enclosing(n.ast, (ast.If,)) is not None and
+                                    U(M.enclosing(n.ast, (ast.If,)).test).replace(' ', '') == 'abs(self.tf-self.t)<self._epsilon')]
+    ok = bool(comp) and bool(cont) and all(g.must_pass(g.entry, r.id, comp) for r in cont)
+    chk.decide(ok, 'fallback-to-fixed-step', 'criteria-consulted-for-every-step', node=gt, file=SOL, func='Solver._get_timestep',
+               detail_bad='some path proposes the next step without calling _compute_timestep(): a stale step (e.g. the one saved before a '
+                          'step shortened to an output time) is reused although the criteria have tightened',
+               detail_ok='every continuing path calls _compute_timestep()')
+    sv = M.find_method(t, 'Solver', 'solve')
+    nxt = [a for a in ast.walk(sv) if isinstance(a, ast.Assign) and U(a.targets[0]) == 'self.dt' and M.call_name(a.value) == 'self._get_timestep']
+    chk.decide(len(nxt) == 2, 'fallback-to-fixed-step', 'solver-asks-before-every-step', node=sv, file=SOL, func='Solver.solve',
+               detail_bad='self.dt = self._get_timestep() sites: %d (one before the loop, one per iteration expected)' % len(nxt), detail_ok='before the loop and in every iteration')
+
+
 def main(chk):
     chk.explanation = ('Fold identities (running min seeded +inf, running max seeded below admissible values), freshness of '
                        'cached carray minimum/maximum (dominance of update_min_max on the same receiver), criterion-name to '
@@ -360,6 +381,7 @@ def main(chk):
     chk.floor('cached min/max reads in integrator.py', n, 1)
     rule_provenance(chk, t)
     rule_fallback(chk)
+    rule_consulted_every_step(chk)
     units = [INT, SOL]
     if chk.tier == 'thorough':
         total = 0
